@@ -144,6 +144,7 @@ type simNode struct {
 	inc       int // incarnation counter
 	abandonedInc int
 	dead      bool // could not be restarted
+	fsmOpen   bool // the FSM gate passes through (the raft goroutine is waiting for the FSM)
 
 	drivers map[uint64]*driver
 
@@ -310,6 +311,25 @@ func (n *simNode) onPoint(name string) {
 	case "snap.start", "snap.finished":
 		n.snapAt = name
 		n.snapGate.park(n)
+		return
+	case "fsm.wait":
+		// the raft goroutine is about to block until the FSM goroutine has worked off
+		// its queue (Raft.lastApplied): it drives the FSM through exactly the queued
+		// items, one at a time, so that the FSM is parked again when it continues
+		w := n.w
+		w.mu.Lock()
+		free := n.free
+		w.mu.Unlock()
+		if free {
+			return
+		}
+		for k := len(n.r.fsm.ch); k > 0; k-- {
+			if err := n.fsmGate.waitParked(); err != nil {
+				return
+			}
+			n.fsmGate.release(false)
+		}
+		_ = n.fsmGate.waitParked()
 		return
 	case "loop.exit":
 		// the raft goroutine leaves stateLoop (shutdown, or a panic is unwinding):
